@@ -351,6 +351,17 @@ static void run_vec(const vh::Lines &ls) {
 			ref[r].resize(n, x);
 		} else if(o == "clear") {
 			int r = R_(t[1]); R[r].clear(); ref[r].clear();
+		} else if(o == "detach") {        // detach(): the caller takes the buffer over and releases it by hand
+			int r = R_(t[1]);
+			E *p = R[r].data(); size_t n = R[r].size();
+			LogAlloc a = R[r]._allocator;
+			R[r].detach();
+			if(R[r].size() != 0 || R[r].data() != nullptr || R[r]._capacity != 0)
+				vh::oracle("refseq", "vector: after detach() size = %zu, data() %s null, capacity = %zu (an empty vector without a buffer has capacity 0)",
+					R[r].size(), R[r].data() ? "not" : "is", R[r]._capacity);
+			for(size_t i = 0; i < n; i++) p[i].~E();
+			a.free(p);
+			ref[r].clear();
 		} else if(o == "front" || o == "back" || o == "idx") {
 			int r = R_(t[1]);
 			size_t i = o == "idx" ? vh::u64(t[2]) : o == "front" ? 0 : ref[r].size() - 1;
@@ -784,6 +795,16 @@ static void run_ilist(const vh::Lines &ls) {
 				if(bw.size() >= 8) { cb = true; break; }
 				bw.push_back(idof(p));
 			}
+			// the same walk with post-increment: `old = it++` must designate the position BEFORE the step
+			{
+				std::vector<int> pw; size_t steps = 0;
+				for(auto it = L[l].begin(); it != L[l].end() && steps < 8; steps++) {
+					auto old = it++;
+					pw.push_back(idof(*old));
+					if(old == it) { vh::oracle("reflist", "intrusive_list %d: it++ returned the advanced position", l); break; }
+				}
+				if(!cf && pw != fw) vh::oracle("reflist", "intrusive_list %d: the positions returned by it++ are not the positions visited by ++it", l);
+			}
 			printf("L%d f=%d b=%d e=%d fw=[", l, idof(L[l].front()), idof(L[l].back()), L[l].empty() ? 1 : 0);
 			show(fw, cf); printf("] bw=["); show(bw, cb); printf("]\n");
 			// oracle: std::list reference
@@ -840,6 +861,13 @@ static void run_ilist(const vh::Lines &ls) {
 		} else if(o == "clear") {
 			int l = Lx(t[1]);
 			L[l].clear(); ref[l].clear();
+		} else if(o == "filter") {        // erase-while-iterating: erase(it++) for the elements whose id has parity p
+			int l = Lx(t[1]); int p = atoi(t[2].c_str()) & 1;
+			size_t guard = 0;
+			for(auto it = L[l].begin(); it != L[l].end() && guard < 16; guard++) {
+				if((idof(*it) & 1) == p) L[l].erase(it++); else ++it;
+			}
+			for(auto r = ref[l].begin(); r != ref[l].end();) { if((*r & 1) == p) ref[l].erase(r++); else ++r; }
 		} else if(o == "splice") {
 			int l = Lx(t[1]), m = Lx(t[2]);
 			if(l == m) throw Stop{"pre"};
